@@ -5,20 +5,21 @@ from . import core
 RULE = ("N goroutines (N in {2, 8, 16}; thorough: every N in 2..16), each with its own simulated BMC, in-memory transport, "
         "connection, sessions and a seeded random workload (session-less command, 1-2 handshakes with and without cipher-suite "
         "discovery, 3-10 in-session commands with retry scripts, SDR retrieval, DCMI enumeration, close), run concurrently in a "
-        "binary built with -race and then once more one after the other in that process; the baseline is each workload ALONE IN A FRESH "
+        "binary built with -race and then once more one after the other in that process, once over in-memory transports and once over "
+        "the library's own UDP transport on loopback (sockets, deadlines, receive buffers); the baseline is each workload ALONE IN A FRESH "
         "PROCESS; predicates: the race detector reports nothing; for every goroutine the results of all calls, the negotiated algorithms, "
         "the Open Session proposal and the BMC's decoded view of every datagram (kind, accepted, session ID, sequence number, NetFn, "
         "command, request data, completion code) are identical to the baseline in both phases.  Theorem part: the frame argument over the "
         "regenerated write-footprint of package-level state.  distinct by (N, seed)")
 
 
-def solo_baseline(wseeds):
+def solo_baseline(wseeds, udp=False):
     """each workload alone, in a fresh process of the (non-race) harness"""
     from concurrent.futures import ThreadPoolExecutor
     binh = os.path.join(core.HARNESS_DIR, "harness")
 
     def one(ws):
-        p = subprocess.run([binh], input="c19solo %d\n" % ws, stdout=subprocess.PIPE, stderr=subprocess.PIPE, text=True, timeout=300)
+        p = subprocess.run([binh], input="c19solo %d%s\n" % (ws, " udp" if udp else ""), stdout=subprocess.PIPE, stderr=subprocess.PIPE, text=True, timeout=300)
         if p.returncode != 0:
             return ws, None
         return ws, json.loads(p.stdout.strip())["obs"]
@@ -35,13 +36,13 @@ def first_diff(a, b):
     return None
 
 
-def judge(ch, n, sd, p, base):
-    desc = {"kind": "c19", "n": n}
+def judge(ch, n, sd, p, base, udp=False):
+    desc = {"kind": "c19", "n": n, "transport": "udp" if udp else "memory"}
     if "DATA RACE" in p.stderr or p.returncode == 66:
-        ch.violation(desc, {"n": n, "seed": sd, "what": "the race detector reported a data race", "report": p.stderr[:3000]})
+        ch.violation(desc, {"n": n, "seed": sd, "udp": udp, "what": "the race detector reported a data race", "report": p.stderr[:3000]})
         return 0
     if p.returncode != 0:
-        ch.violation(desc, {"n": n, "seed": sd, "what": "harness exited with %d" % p.returncode, "stderr": p.stderr[-2000:]})
+        ch.violation(desc, {"n": n, "seed": sd, "udp": udp, "what": "harness exited with %d" % p.returncode, "stderr": p.stderr[-2000:]})
         return 0
     r = json.loads(p.stdout.strip())
     differing = []
@@ -52,7 +53,7 @@ def judge(ch, n, sd, p, base):
                 differing.append({"goroutine": i, "phase": phase, "workload_seed": sd * 100 + i,
                                   "first_difference": first_diff(alone or "", r[phase][i])})
     if differing:
-        ch.violation(desc, {"n": n, "seed": sd, "what": "a connection's observations differ from the same workload run alone in a fresh process "
+        ch.violation(desc, {"n": n, "seed": sd, "udp": udp, "what": "a connection's observations differ from the same workload run alone in a fresh process "
                             "(phase concurrent = next to the other goroutines; after = one after the other in the process that ran them)",
                             "differing": differing[:4], "count": len(differing)})
     ch.sample({"n": n, "seed": sd, "steps": r["steps"], "differing": len(differing)})
@@ -68,16 +69,20 @@ def run(ch, build):
     ns = [2, 8, 16] if ch.quick() else list(range(2, 17))
     seeds = list(range(ch.seed, ch.seed + (3 if ch.quick() else 50)))
     binr = os.path.join(core.HARNESS_DIR, "harness_race")
-    base = solo_baseline(sorted({sd * 100 + i for sd in seeds for i in range(max(ns))}))
     total_steps = 0
-    for n in ns:
-        for sd in seeds:
-            p = subprocess.run([binr], input="c19 %d %d\n" % (n, sd), stdout=subprocess.PIPE, stderr=subprocess.PIPE, text=True, timeout=600,
-                               env=dict(os.environ, GORACE="halt_on_error=0 exitcode=66"))
-            ch.note_case("c19-run", "%d|%d" % (n, sd))
-            total_steps += judge(ch, n, sd, p, base)
+    for udp in (False, True):
+        # in memory (the harness's transport) and over the library's own UDP transport on loopback
+        nsx = ns if not udp else ([8, 16] if ch.quick() else list(range(2, 17, 2)))
+        sdx = seeds if not udp else seeds[:2 if ch.quick() else 20]
+        base = solo_baseline(sorted({sd * 100 + i for sd in sdx for i in range(max(nsx))}), udp)
+        for n in nsx:
+            for sd in sdx:
+                p = subprocess.run([binr], input="c19 %d %d%s\n" % (n, sd, " udp" if udp else ""), stdout=subprocess.PIPE, stderr=subprocess.PIPE,
+                                   text=True, timeout=900, env=dict(os.environ, GORACE="halt_on_error=0 exitcode=66"))
+                ch.note_case("c19-run-" + ("udp" if udp else "memory"), "%d|%d" % (n, sd))
+                total_steps += judge(ch, n, sd, p, base, udp)
+        ch.extra["fresh_process_baselines_" + ("udp" if udp else "memory")] = len(base)
     ch.extra["goroutine_steps"] = total_steps
-    ch.extra["fresh_process_baselines"] = len(base)
     return ch.finish(rule=RULE, assumptions=[
         "freedom from data races in the Go memory model is not a theorem here: it is what the race detector observed on the schedules that occurred",
         "IVs and the console random come from crypto/rand and are not compared (the BMC's decrypted view is)"])
@@ -86,12 +91,13 @@ def run(ch, build):
 def replay(ch, build, path):
     r = json.load(open(path)); d = r["detail"]
     core.sh("./build.sh race", cwd=core.HARNESS_DIR, env=core.GOENV, timeout=1200)
-    p = subprocess.run([os.path.join(core.HARNESS_DIR, "harness_race")], input="c19 %d %d\n" % (d["n"], d["seed"]),
+    udp = bool(d.get("udp"))
+    p = subprocess.run([os.path.join(core.HARNESS_DIR, "harness_race")], input="c19 %d %d%s\n" % (d["n"], d["seed"], " udp" if udp else ""),
                        stdout=subprocess.PIPE, stderr=subprocess.PIPE, text=True, timeout=600)
     print(p.stdout[:2000]); print(p.stderr[:2000])
     bad = "DATA RACE" in p.stderr or p.returncode != 0
     if not bad:
-        rr = json.loads(p.stdout.strip()); base = solo_baseline([d["seed"] * 100 + i for i in range(d["n"])])
+        rr = json.loads(p.stdout.strip()); base = solo_baseline([d["seed"] * 100 + i for i in range(d["n"])], udp)
         bad = any(rr[ph][i] != base[d["seed"] * 100 + i] for ph in ("concurrent", "after") for i in range(d["n"]))
     if bad:
         print("VIOLATION property=C19 replay=%s" % path)
